@@ -146,6 +146,51 @@ def csolve(M, R):
     return [row[n:] for row in A]
 
 
+def _pow2(q):
+    """q = +-2^e ?"""
+    q = abs(q)
+    if q == 0:
+        return False
+    n, d = q.numerator, q.denominator
+    return (n & (n - 1)) == 0 and (d & (d - 1)) == 0 and (n == 1 or d == 1)
+
+
+def _small_dyadic(q, bits=40):
+    d = q.denominator
+    return (d & (d - 1)) == 0 and abs(q.numerator).bit_length() <= bits and d.bit_length() <= bits
+
+
+def lu_exact(M):
+    """True when LAPACK's LU with partial pivoting of the complex matrix M (entries = pairs of
+    Fractions) cannot round: the pivot order is emulated in exact arithmetic (pivot = first row
+    of maximal |re| + |im|), every pivot that is actually divided by is +-2^e or +-2^e i, and every
+    intermediate is a short dyadic Gaussian rational.  Then a singular M gives an exactly zero
+    pivot and numpy.linalg.solve raises LinAlgError; otherwise whether a float LU notices an
+    exact pole is a matter of rounding (outside the property: 'poles that are exact in floating
+    point')."""
+    n = len(M)
+    A = [list(r) for r in M]
+    if not all(_small_dyadic(v[0]) and _small_dyadic(v[1]) for r in A for v in r):
+        return False
+    for k in range(n):
+        piv = max(range(k, n), key=lambda r: (abs(A[r][k][0]) + abs(A[r][k][1]), -r))
+        A[k], A[piv] = A[piv], A[k]
+        pv = A[k][k]
+        below = [r for r in range(k + 1, n) if A[r][k] != CZ]
+        if pv == CZ:
+            continue            # exactly zero pivot: nothing below either (it was the maximum)
+        if below:
+            if not ((pv[1] == 0 and _pow2(pv[0])) or (pv[0] == 0 and _pow2(pv[1]))):
+                return False
+        for r in below:
+            f = cdiv(A[r][k], pv)
+            A[r] = [csub(v, cmul(f, w)) for v, w in zip(A[r], A[k])]
+            A[r][k] = CZ
+            if not all(_small_dyadic(v[0]) and _small_dyadic(v[1]) for v in A[r]):
+                return False
+    return True
+
+
 def cand_tokens(sysd, points):
     """the `Y` section: for every evaluation point a candidate X with (xI - A) X = B (zeros at a
     pole); the model checks the equation before it uses X"""
@@ -853,6 +898,7 @@ class C04(Family):
         sysd = case["sys"]
         p, m = sys_shape(sysd)
         worst = Fraction(0)
+        unjudged = 0
         for q in range(mo["k"]):
             mpt = mo["pts"][q]
             tau_pt = self.point_tau(case, q, mpt, xf[q])
@@ -860,6 +906,12 @@ class C04(Family):
                 mc, ic = mpt["cells"][idx], io["cells"][q][idx]
                 mcl = {"F": "finite", "I": "inf", "N": "nan"}[mc[0]]
                 icl = {"F": "finite", "I": "inf", "N": "nan"}[ic[0]]
+                if (mcl != icl and icl == "finite" and mpt.get("sing") and sysd[0] == "LS"
+                        and sysd[1] >= 2 and not self.lu_certified(case, q)):
+                    # an exact pole that the floating-point LU does not hit exactly (no
+                    # power-of-two pivots): whether solve() raises is a matter of rounding
+                    unjudged += 1
+                    break
                 if mcl != icl:
                     return Verdict(VIOLATES, "point %d entry %d: model %s impl %s" % (q, idx, mc, ic),
                                    self.feats(case, "class", model=mcl, impl=icl))
@@ -880,8 +932,21 @@ class C04(Family):
                                    % (q, idx, mc[1:], ic[1:], float(err), float(tau)),
                                    self.feats(case, "value", tol=str(float(tau))))
                 worst = max(worst, err / tau)
-        self.side[id(case)] = {"worst": float(worst)}
+        self.side[id(case)] = {"worst": float(worst), "unjudged": unjudged}
         return Verdict(AGREE)
+
+    def lu_certified(self, case, q):
+        """is the LU of x_q I - A exact in binary64 (see lu_exact)"""
+        sysd = case["sys"]
+        _, ns, p, m, dt, A, B, C, D = sysd
+        try:
+            x = eval_points(case)[q]
+        except Exception:
+            return False
+        Af = fmat(A, ns, ns)
+        M = [[((x[0] if i == j else F0) - Af[i][j], (x[1] if i == j else F0)) for j in range(ns)]
+             for i in range(ns)]
+        return lu_exact(M)
 
     def expected_calls(self, case, mo):
         """the arguments the model hands to the root finders, as comparable records"""
@@ -995,6 +1060,8 @@ class C04(Family):
         if "worst" in sd:
             w = sd["worst"]
             st["err/tol"] = "<=1e-3" if w <= 1e-3 else ("<=1e-1" if w <= 1e-1 else ">1e-1")
+        if sd.get("unjudged"):
+            st["exact_pole_not_exact_in_float_LU"] = "class not judged"
         if sd.get("zeros_unchecked"):
             st["zeros_values"] = "unchecked(D singular)"
         if case.get("via"):
